@@ -72,8 +72,19 @@ def check(ctx, rep):
                                                                  'crux_core::command::context::CommandContext::request_from_shell')]
             unws = [(g, bb, t) for g in bs for bb, t in g.calls() if last_seg(t.get('callee') or '').startswith('unwrap_') and
                     'KeyValueResult' in norm(t.get('cself') or t.get('callee') or '')]
+            # the un-wrapper may also be handed over as a function item (`.map(KeyValueResult::unwrap_get)`, or as an argument of a helper)
+            unw_names = [last_seg(u[2]['callee']) for u in unws]
+            for g in bs:
+                seen_items = set()
+                for blk in g.blocks:
+                    ops_ = [st_['rv'].get('a') for st_ in blk['st'] if st_['k'] == 'assign' and st_['rv']['k'] == 'use'] + list(blk['t'].get('args') or [])
+                    for op in ops_:
+                        fnp = (op or {}).get('fn') if isinstance(op, dict) else None
+                        if fnp and last_seg(fnp).startswith('unwrap_') and 'KeyValueResult' in norm(fnp) and fnp not in seen_items:
+                            seen_items.add(fnp)
+                unw_names += [last_seg(x) for x in seen_items]
             ok = len(aggs) == 1 and aggs[0][2]['rv']['variant'] == variant and len(reqs) == 1 and not reqs[0][0].in_cycle(reqs[0][1]) and \
-                len(unws) == 1 and last_seg(unws[0][2]['callee']) == uname
+                sorted(set(unw_names)) == [uname]
             if ok:
                 # the request carries the aggregate
                 g, bb, t = reqs[0]
@@ -81,7 +92,7 @@ def check(ctx, rep):
                 ok = any(o.kind == 'agg' and o.stmt is aggs[0][2] for o in origins(g, arg))
             rep.expect('R17.a', ok, key, 'builds %s, one request_from_shell, result to %s' % (variant, uname),
                        'crux_kv %s API `%s`: built %s, %d request(s), un-wrapper %s' % (
-                           api, fname, [a[2]['rv']['variant'] for a in aggs], len(reqs), [last_seg(u[2]['callee']) for u in unws]))
+                           api, fname, [a[2]['rv']['variant'] for a in aggs], len(reqs), sorted(set(unw_names))))
             # R17.b fields
             if len(aggs) == 1:
                 g, bb, s = aggs[0]
